@@ -297,6 +297,10 @@ def _judge(want, have, closure=(), depth=0, conds=None, wconds=None):
                 return 'undecided', 'same visible steps; an operand is a value computed by a loop (compared as text only): %s' % t2[:120]
             return 'bad', 'same steps, different operand: `%s` instead of `%s`' % (t2[:160], t1[:160])
     if wt != ht:
+        inv_w = [t for k, h, t in _effects(want) if (k, h, t) not in we and k != 'new']
+        inv_h = [t for k, h, t in _effects(have) if (k, h, t) not in he and k != 'new']
+        if inv_w != inv_h:
+            return 'undecided', 'a local accumulator is represented differently (steps on a local object on one side, a carried value on the other)'
         if _re.search(r'obj\d+', ''.join(wt + ht)):
             return 'undecided', 'loop-carried locals differ in a value built from local objects'
         return 'bad', 'the values carried to the next iteration / after the loop differ: `%s` instead of `%s`' % (ht[0][:160], wt[0][:160])
